@@ -586,6 +586,10 @@ class CacheHarness:
                     res = enc_mpf(fn(p, rnd)); tag = None
                 except InjectedFault:
                     res = "-"; tag = "x"
+                except Exception as e:  # noqa   (the request itself failed: a consequence of the earlier, aborted request)
+                    res = "!" + type(e).__name__; tag = "E"
+                    self.find("libelefun.def_mpf_constant:history", {"what": "mpf constant request raised %s after an aborted earlier request" % type(e).__name__,
+                              "name": name, "prec": p, "rnd": rnd, "hist": hist})
                 w.armed = False
                 if tag is None:
                     tag = "m" if len(w.calls) > nc else "c"
@@ -602,7 +606,12 @@ class CacheHarness:
             modn = "libelefun" if name in R.le.__dict__ else "gammazeta"
             fr_all = self.fresh.eval("result = [%s.%s(%d, r) for r in %r]" % (modn, R.MPF[name], p, RNDS))
             for i, rnd in enumerate(RNDS):
-                here = fn(p, rnd)
+                try:
+                    here = fn(p, rnd)
+                except Exception as e:  # noqa
+                    self.find("libelefun.def_mpf_constant:history", {"what": "mpf constant probe raised %s after the history" % type(e).__name__,
+                              "name": name, "prec": p, "rnd": rnd, "hist": hist})
+                    continue
                 self.bump("const_probes")
                 try:
                     frv = eval(fr_all)[i]
@@ -612,7 +621,10 @@ class CacheHarness:
                     self.softbump("mpf_probe_differs")
                     self.find("libelefun.def_mpf_constant:history", {"what": "mpf constant depends on history", "name": name, "prec": p, "rnd": rnd,
                               "here": repr(here), "fresh": repr(frv), "hist": hist})
-            lo, hi = fn(p, "f"), fn(p, "c")
+            try:
+                lo, hi = fn(p, "f"), fn(p, "c")
+            except Exception:  # noqa   (already reported above)
+                continue
             if not R.libmp.mpf_le(lo, hi):
                 self.find("libelefun.def_mpf_constant", {"what": "floor > ceiling", "name": name, "prec": p})
 
